@@ -267,13 +267,27 @@ impl InnerNodeManage {
         }
     }
 
-    fn get_cluster_process_range(&mut self, _input: ProcessRange) -> Vec<ProcessRange> {
+    fn get_cluster_process_range(&mut self, _input: ProcessRange, node_id: u64) -> Vec<ProcessRange> {
         let mut list = vec![];
         list.push(self.current_range.clone());
         self.clear_timeout_process_range();
         for (r, _) in &self.history_ranges {
             if *r != self.current_range {
                 list.push(r.to_owned());
+            }
+        }
+        // the node that asks has lost what it held: it also needs the copies this node keeps
+        // of the services it owns itself (nobody else would send them)
+        let valid_ids: Vec<u64> = self
+            .all_nodes
+            .iter()
+            .filter(|(_, v)| v.is_valid())
+            .map(|(id, _)| *id)
+            .collect();
+        if let Some(index) = valid_ids.iter().position(|id| *id == node_id) {
+            let range = ProcessRange::new(index, valid_ids.len());
+            if !list.contains(&range) {
+                list.push(range);
             }
         }
         list
@@ -554,7 +568,8 @@ pub enum NodeManageRequest {
     RemoveDiffClientIds(u64, HashSet<Arc<String>>),
     RemoveClientId(Arc<String>),
     //QueryClusterIds(),
-    QueryOwnerRange(ProcessRange),
+    /// the range the asking node wants (unused) and the id of the asking node
+    QueryOwnerRange(ProcessRange, u64),
     SendSnapshot(u64, SnapshotForSend),
     QueryDiffClientInstances(u64, Vec<InstanceKey>),
 }
@@ -616,8 +631,8 @@ impl Handler<NodeManageRequest> for InnerNodeManage {
                 self.remove_client_id(client_id);
                 Ok(NodeManageResponse::None)
             }
-            NodeManageRequest::QueryOwnerRange(range) => {
-                let ranges = self.get_cluster_process_range(range);
+            NodeManageRequest::QueryOwnerRange(range, node_id) => {
+                let ranges = self.get_cluster_process_range(range, node_id);
                 Ok(NodeManageResponse::OwnerRange(ranges))
             }
             NodeManageRequest::SendSnapshot(node_id, snapshot) => {
